@@ -133,6 +133,12 @@ pub fn child(args: &[String]) -> i32 {
     match args.first().map(|s| s.as_str()) {
         Some("records") if args.len() >= 5 => children::child_records(&args[1..]),
         Some("c15") => c15::child_dump(),
+        Some("fragments") => {
+            for f in crate::policy::harvest_fragments() {
+                println!("{f:?}");
+            }
+            0
+        }
         Some("now") => {
             println!("{}", std::time::SystemTime::now().duration_since(std::time::UNIX_EPOCH).map(|d| d.as_secs()).unwrap_or(0));
             0
